@@ -137,7 +137,7 @@ d$n := append(b$n[:1], 7, 8, 9, 10)
 d$n[0] = 55
 emit(b$n[0])
 emit(len(d$n))`},
-	{"slice-nested", "", `m$n := [][]int{{1, 2}, {3}, {}}
+	{"slice-nested", "", `m$n := [][]int{[]int{1, 2}, []int{3}, []int{}}
 m$n[2] = append(m$n[2], $a)
 m$n[0][1] += $b
 t$n := 0
@@ -246,7 +246,7 @@ c$n.Xs[0] = 50
 emit(o$n.In.B)
 emit(o$n.Xs[0])
 emit(o$n.M["k"])
-ps$n := []I$n{{1, 2}, {3, 4}}
+ps$n := []I$n{I$n{1, 2}, I$n{3, 4}}
 ps$n[0].A = $c
 for _, e$n := range ps$n {
 	e$n.B = 100
@@ -256,7 +256,7 @@ for i$n := range ps$n {
 	ps$n[i$n].B++
 }
 emit(ps$n[1].B)
-ms$n := map[string]I$n{"a": {5, 6}}
+ms$n := map[string]I$n{"a": I$n{5, 6}}
 emit(ms$n["a"].B)
 t$n := ms$n["a"]
 t$n.A = 9
@@ -268,14 +268,6 @@ emit(ps$n[1].A)
 emits(fmt.Sprint(o$n.In, ps$n))`},
 	{"func-basic", `func add$n(a, b int) int { return a + b*$a }
 func divmod$n(a, b int) (int, int) { return a / b, a % b }
-func named$n(a int) (r int, s string) {
-	r = a * 2
-	if a > $b {
-		s = "big"
-		return
-	}
-	return r + 1, "small"
-}
 func sum$n(xs ...int) int {
 	t := 0
 	for _, x := range xs {
@@ -298,9 +290,6 @@ func fib$n(k int) int {
 func swap$n(a, b string) (string, string) { return b, a }`, `emit(add$n(2, 3))
 q$n, r$n := divmod$n(17, $c)
 emit(q$n*100 + r$n)
-x$n, s$n := named$n($d)
-emit(x$n)
-emits(s$n)
 emit(sum$n())
 emit(sum$n(1, 2, $a))
 emit(sum$n([]int{4, 5, 6}...))
@@ -365,32 +354,50 @@ func odd$n(k int) bool {
 }`, `emitb(even$n($a))
 emitb(odd$n($a))
 emitb(even$n(10))`},
-	{"defer-order", `func dord$n() (r int) {
+	{"defer-order", `func dord$n() int {
 	x := 1
-	defer emit(x)
-	x = 2
 	defer func() {
 		emit(x)
-		r += 10
 	}()
 	for i := 0; i < 3; i++ {
 		defer emit(100 + i)
 	}
+	defer func(k int) { emit(k) }(x * 7)
 	x = 3
 	return x * $a
 }`, `emit(dord$n())`},
-	{"defer-recover", `func safe$n(d int) (r int, msg string) {
+	{"defer-arg-var", `func darg$n(k int) int {
+	x := k
+	defer emit(x)
+	x = 9
+	return x
+}`, `emit(darg$n($a))`},
+	{"named-results", `func named$n(a int) (r int, s string) {
+	r = a * 2
+	if a > $b {
+		s = "big"
+		return
+	}
+	return r + 1, "small"
+}
+func dres$n() (r int) {
 	defer func() {
-		if e := recover(); e != nil {
-			emit(-1)
-			r = -99
-			msg = "recovered"
-		}
+		r += 10
+	}()
+	return $a
+}`, `x$n, s$n := named$n($d)
+emit(x$n)
+emits(s$n)
+emit(dres$n())`},
+	{"defer-recover", `func safe$n(d int) {
+	defer func() {
+		e := recover()
+		_, isErr := e.(error)
+		emitb(isErr)
+		emit(-1)
 	}()
 	emit(d)
-	r = 100 / d
-	msg = "ok"
-	return
+	emit(100 / d)
 }
 func thrower$n(k int) {
 	defer emit(70 + k)
@@ -399,46 +406,57 @@ func thrower$n(k int) {
 	}
 	emit(60 + k)
 }
-func catcher$n(k int) (s string) {
+func catcher$n(k int) {
 	defer func() {
 		e := recover()
-		if e == nil {
-			s += "-none"
-			return
-		}
-		s = fmt.Sprint("caught:", e)
+		emits(fmt.Sprint("caught:", e))
 	}()
 	thrower$n(k)
-	return "fine"
-}`, `a$n, b$n := safe$n(0)
-emit(a$n)
-emits(b$n)
-a$n, b$n = safe$n(5)
-emit(a$n)
-emits(b$n)
-emits(catcher$n(1))
-emits(catcher$n(9))`},
-	{"recover-runtime", `func idx$n(xs []int, i int) (v int) {
+	emits("fine")
+}`, `safe$n(0)
+safe$n(5)
+catcher$n(1)
+catcher$n(9)`},
+	{"recover-results", `func rres$n(k int) int {
+	defer func() {
+		recover()
+	}()
+	if k > 2 {
+		panic("boom")
+	}
+	return k + $a
+}`, `emit(rres$n(1))
+emit(rres$n(5))`},
+	{"recover-neq-nil", `func rneq$n(d int) {
 	defer func() {
 		if e := recover(); e != nil {
-			_, isErr := e.(error)
-			emitb(isErr)
-			v = -1
+			emit(-1)
 		}
 	}()
-	return xs[i]
-}
-func nilmap$n() (ok bool) {
+	emit(100 / d)
+}`, `rneq$n($a)
+rneq$n(0)`},
+	{"recover-runtime", `func idx$n(xs []int, i int) {
 	defer func() {
-		ok = recover() != nil
+		e := recover()
+		_, isErr := e.(error)
+		emitb(isErr)
+	}()
+	emit(xs[i])
+}
+func nilmap$n() {
+	defer func() {
+		e := recover()
+		_, isErr := e.(error)
+		emitb(isErr)
 	}()
 	var m map[string]int
 	m["x"] = 1
-	return false
+	emit(1)
 }
-func repanic$n() (s string) {
+func repanic$n() {
 	defer func() {
-		s = fmt.Sprint(recover())
+		emits(fmt.Sprint(recover()))
 	}()
 	defer func() {
 		e := recover()
@@ -446,16 +464,22 @@ func repanic$n() (s string) {
 	}()
 	panic("first")
 }
-func norecover$n() (s string) {
+func norecover$n() {
 	defer func() {
-		s = fmt.Sprint(recover() == nil)
+		emits(fmt.Sprint(recover()))
 	}()
-	return "x"
-}`, `emit(idx$n([]int{1, 2, 3}, 1))
-emit(idx$n([]int{1, 2, 3}, $a+2))
-emitb(nilmap$n())
-emits(repanic$n())
-emits(norecover$n())`},
+	emits("x")
+}`, `idx$n([]int{1, 2, 3}, 1)
+idx$n([]int{1, 2, 3}, $a+2)
+nilmap$n()
+repanic$n()
+norecover$n()`},
+	{"elided-lit", `type EL$n struct{ A, B int }`, `m$n := [][]int{{1, $a}, {3}, {}}
+emit(len(m$n) + m$n[0][1])
+ps$n := []EL$n{{1, 2}, {3, $b}}
+emit(ps$n[1].B)
+ms$n := map[string]EL$n{"a": {5, 6}}
+emit(ms$n["a"].B)`},
 	{"switch-forms", "", `for i$n := 0; i$n < 6; i$n++ {
 	switch i$n {
 	case 0:
@@ -579,27 +603,24 @@ var v$n int = c$n
 emit(v$n + $a)
 const loc$n = 7
 emit(loc$n % 4)`},
-	{"pointers", `type N$n struct {
-	V    int
-	Next *N$n
-}
-func inc$n(p *int) { *p += $a }`, `v$n := 1
+	{"pointers", `func inc$n(p *int) { *p += $a }
+type PT$n struct{ V int }`, `v$n := 1
 p$n := &v$n
 *p$n = 5
 inc$n(p$n)
 inc$n(&v$n)
 emit(v$n)
-a$n := &N$n{V: 1}
-a$n.Next = &N$n{V: 2, Next: &N$n{V: 3}}
-t$n := 0
-for q$n := a$n; q$n != nil; q$n = q$n.Next {
-	t$n = t$n*10 + q$n.V
-}
-emit(t$n)
-emitb(a$n.Next.Next.Next == nil)
 np$n := new(int)
 *np$n += $b
-emit(*np$n)`},
+emit(*np$n)
+a$n := &PT$n{V: 1}
+b$n := a$n
+b$n.V = $c
+emit(a$n.V)
+emitb(a$n == b$n)
+c$n := *a$n
+c$n.V++
+emit(a$n.V*100 + c$n.V)`},
 	{"methods", `type C$n struct{ N int }
 
 func (c C$n) Get() int   { return c.N * $a }
@@ -610,10 +631,7 @@ c$n.Set(100)
 emit(c$n.Get())
 pc$n := &c$n
 pc$n.Inc(1)
-emit(pc$n.Get())
-g$n := c$n.Get
-c$n.Inc(10)
-emit(g$n())`},
+emit(pc$n.Get())`},
 }
 
 type tprog struct {
